@@ -95,6 +95,9 @@ FEATURE_SETS = [
     # without --cfg unicode_bidi_verif; a side effect hidden in a debug_assert!, a wrap-around that only the overflow
     # checks stop, or code under cfg(not(unicode_bidi_verif)) shows here and nowhere else
     ("release-noassert", ["--profile", "relna", "--target-dir", "target-relna"]),
+    # the two axes crossed (C20 only): no std with smallvec, and the release-like build with both optional features
+    ("no-default+smallvec", ["--no-default-features", "--features", "smallvec"]),
+    ("release-noassert+smallvec+serde", ["--profile", "relna", "--target-dir", "target-relna", "--features", "smallvec,serde"]),
 ]
 
 
@@ -237,7 +240,7 @@ def lean_obligations(prop, log):
 
 def build_harness(extra, log, tag="default"):
     t0 = time.time()
-    if tag == "release-noassert":
+    if tag.startswith("release-noassert"):
         rc, out = sh(["cargo", "build", "--offline"] + extra, cwd=HARN, env={"RUSTFLAGS": ""}, timeout=3000)
         built = os.path.join(HARN, "target-relna", "relna", "ubidi-harness")
     else:
@@ -391,7 +394,7 @@ def main():
     exhaustive_streams = []
     harness_problems = []
     digests = {}
-    feature_sets = FEATURE_SETS if prop == "C20" else [FEATURE_SETS[0], FEATURE_SETS[-1]]
+    feature_sets = FEATURE_SETS if prop == "C20" else [FEATURE_SETS[0], FEATURE_SETS[5]]
     njobs = 16 if tier == "thorough" else 8
     total = cfg[tier]
     for tag, extra in feature_sets:
